@@ -38,7 +38,7 @@ KINDS = ["bin-raw", "bin-path", "bin-gz", "json"]
 
 
 def budget(tier):
-    return 12000 if tier == "quick" else 1500000
+    return 40000 if tier == "quick" else 3000000
 
 
 def wall_cap(tier):
@@ -86,9 +86,14 @@ def rich_pool(rng):
 def gen_vals(rng, pool, key):
     name, fields = pool[key]
     out = []
+    used = set()
     for typ, _ in fields:
         if typ == "record":
-            ck = rng.choice(["C0", "C1", "C2", "A0", "A1"])
+            ck = rng.choice(["C0", "C1", "C2", "A0", "A1", "B0", "B1", "X0", "X1"])
+            ident = (pool[ck][0], gen.desc_hash(pool[ck][0], pool[ck][1]))
+            if ident in used:  # two coinciding descriptors inside one record cannot be represented
+                ck = "C2"
+            used.add(ident)
             out.append({"$rec": [ck, gen_vals(rng, pool, ck)]})
         elif typ == "record[]":
             n = rng.choice([0, 1, 2, 3])
@@ -185,7 +190,7 @@ def generate(rng, tier, index):
                 members = []
                 used = set()
                 for _ in range(rng.choice([1, 2, 2, 3])):
-                    mk = rng.choice(["M0", "M1", "M2", "A0", "A1"])
+                    mk = rng.choice(["M0", "M1", "M2", "A0", "A1", "B0", "B1", "X0", "X1"])
                     ident = (pool[mk][0], gen.desc_hash(pool[mk][0], pool[mk][1]))
                     if ident in used:
                         continue
